@@ -45,14 +45,31 @@ var opts = map[int][]layers.IPv4Option{
 	60: {{OptionType: 68, OptionLength: 40, OptionData: make([]byte, 38)}},
 }
 
+// otherKey selects how datagram 1's key differs from datagram 0's (set by the sequential driver
+// of the interleaving family only)
+var otherKey int
+
 func mk4(f frag, ihlBytes int) *layers.IPv4 {
 	n := (f.b - f.a) * unit
 	pl := make([]byte, n)
 	for i := range pl {
 		pl[i] = pbyte(f.id, f.a*unit+i)
 	}
-	ip := &layers.IPv4{Version: 4, IHL: uint8(ihlBytes / 4), TOS: 3, Length: uint16(ihlBytes + n), Id: uint16(100 + f.id), FragOffset: uint16(f.a), TTL: 61, Protocol: layers.IPProtocolUDP,
+	ip := &layers.IPv4{Version: 4, IHL: uint8(ihlBytes / 4), TOS: 3, Length: uint16(ihlBytes + n), Id: 100, FragOffset: uint16(f.a), TTL: 61, Protocol: layers.IPProtocolUDP,
 		SrcIP: net.IP{10, 0, 0, 1}, DstIP: net.IP{10, 0, 0, 2}, Options: opts[ihlBytes]}
+	if f.id != 0 {
+		// the second datagram differs from the first in exactly one component of the (src,dst,id) key
+		switch otherKey {
+		case 0:
+			ip.Id = 101
+		case 1:
+			ip.SrcIP, ip.DstIP = ip.DstIP, ip.SrcIP // the reverse direction, same id
+		case 2:
+			ip.SrcIP = net.IP{10, 0, 0, 3}
+		case 3:
+			ip.DstIP = net.IP{10, 0, 0, 3}
+		}
+	}
 	if f.mf {
 		ip.Flags = layers.IPv4MoreFragments
 	}
@@ -243,23 +260,37 @@ func (c *ctx) benignSpace(maxN int, hdrs []int) {
 						}
 					})
 				}
-				// interleaving with a second datagram (all merges), small n only
-				if n <= 3 {
-					other := []frag{{1, 0, 1, true}, {1, 1, 2, false}}
-					permutations(len(frs), func(p []int) {
-						arr := make([]frag, len(p))
-						for i, j := range p {
-							arr[i] = frs[j]
-						}
-						for _, o := range [][]frag{other, {other[1], other[0]}} {
-							merges(arr, o, nil, func(m []frag) { c.benign(m, hdrs[0], 2, []int{n, 2}) })
-						}
-					})
-				}
 			}()
 		}
 	}
 	wg.Wait()
+	// interleaving with the fragments of a second datagram whose key differs in one
+	// component (other id / reverse direction with the same id / other source / other
+	// destination): every merge of the two arrival orders, small n
+	for otherKey = 0; otherKey < 4; otherKey++ {
+		for n := 2; n <= 3 && n <= maxN; n++ {
+			for _, parts := range compositions(n) {
+				if len(parts) == 1 {
+					continue
+				}
+				frs := make([]frag, len(parts))
+				for i, p := range parts {
+					frs[i] = frag{0, p[0], p[1], p[1] != n}
+				}
+				other := []frag{{1, 0, 1, true}, {1, 1, 2, false}}
+				permutations(len(frs), func(p []int) {
+					arr := make([]frag, len(p))
+					for i, j := range p {
+						arr[i] = frs[j]
+					}
+					for _, o := range [][]frag{other, {other[1], other[0]}} {
+						merges(arr, o, nil, func(m []frag) { c.benign(m, hdrs[0], 2, []int{n, 2}) })
+					}
+				})
+			}
+		}
+	}
+	otherKey = 0
 }
 
 func merges(a, b, acc []frag, f func([]frag)) {
